@@ -147,3 +147,29 @@ def check_exact_conversion(ck, rule, prog, body_id, what):
             if st.k == "assign" and st.rv["k"] == "bin":
                 bad.append("computes with `%s` (line %s)" % (st.rv["op"], st.line))
     ck.ob(rule, "exact-conversion/" + b.short.rsplit("::", 1)[-1], not bad, "%s %s" % (b.short, ("converts %s exactly or fails" % what) if not bad else ("is not an exact-or-fail conversion of %s: it %s - large values are silently changed instead of being rejected" % (what, "; ".join(bad[:2])))), where=b.where())
+
+
+def termid_display_width(prog):
+    """zero-padded width of the number in `Display for HpoTermId` (the id space is the numbers of that many decimal digits)"""
+    from engines import parse_bytestr, decode_format_template
+    disp = prog.body("<term::hpotermid::HpoTermId as std::fmt::Display>::fmt")
+    if disp is None:
+        return None
+    tmpl = None
+    for pos, s in disp.stmts():
+        if s.k == "assign" and s.rv["k"] == "use" and s.rv["op"].kind == "const":
+            b = parse_bytestr(s.rv["op"].const["val"])
+            if b is not None:
+                tmpl = decode_format_template(b)
+    for bi, t in disp.calls():
+        for a in t.args:
+            if a.kind == "const":
+                b = parse_bytestr(a.const["val"])
+                if b is not None:
+                    tmpl = decode_format_template(b)
+    if not tmpl:
+        return None
+    args = [x[1] for x in tmpl if x[0] == "arg"]
+    if len(args) == 1 and args[0].get("width"):
+        return args[0]["width"]
+    return None
